@@ -1,11 +1,8 @@
-#![allow(dead_code)]
 //! tcverif — property-based verification harness for taskchampion.
 //! usage: tcverif <PROPERTY> [--tier quick|thorough] [--seed N] [--replay FILE]
 
-mod engine;
-mod props;
-
-use engine::{Engine, Tier};
+use tcverif::engine::{self, Engine, Tier};
+use tcverif::props;
 use std::path::PathBuf;
 
 fn level_of(prop: &str) -> &'static str {
@@ -22,6 +19,53 @@ fn main() {
         std::process::exit(2);
     }
     let prop_arg = args[1].to_uppercase();
+    if prop_arg == "GEN-CORPUS" {
+        // deterministic seed corpus for the cargo-fuzz targets
+        let dir = std::path::Path::new(&args[2]);
+        for t in tcverif::fuzz_targets::TARGETS {
+            let d = dir.join(t);
+            std::fs::create_dir_all(&d).unwrap();
+            let mut x: u64 = 0x9E37_79B9_7F4A_7C15 ^ (t.len() as u64 * 77);
+            for k in 0..24 {
+                let len = [48usize, 96, 192, 384, 768, 1536][k % 6] + k;
+                let mut buf = Vec::with_capacity(len);
+                for _ in 0..len {
+                    x ^= x << 13;
+                    x ^= x >> 7;
+                    x ^= x << 17;
+                    // bias towards small values: they select the common alternatives
+                    buf.push(if k % 2 == 0 { (x >> 32) as u8 } else { ((x >> 32) as u8) / 3 });
+                }
+                std::fs::write(d.join(format!("seed-{k:02}")), buf).unwrap();
+            }
+        }
+        std::process::exit(0);
+    }
+    if prop_arg == "FUZZ-PROBE" {
+        // how long does case generation take for each corpus file?
+        let dir = std::path::Path::new(&args[3]);
+        for ent in std::fs::read_dir(dir).unwrap().flatten() {
+            let data = std::fs::read(ent.path()).unwrap();
+            let t0 = std::time::Instant::now();
+            let r = tcverif::fuzz_targets::run(&args[2], &data);
+            println!("{:?} {} bytes -> {:?} in {:?}", ent.file_name(), data.len(), r.map_err(|f| f.signature), t0.elapsed());
+        }
+        std::process::exit(0);
+    }
+    if prop_arg == "FUZZ-REPLAY" {
+        let data = std::fs::read(&args[3]).expect("read input");
+        match tcverif::fuzz_targets::run(&args[2], &data) {
+            Ok(()) => {
+                println!("REPLAY PASS target={}", args[2]);
+                std::process::exit(0)
+            }
+            Err(f) => {
+                println!("REPLAY FAIL target={} signature={}\n{}", args[2], f.signature, f.msg);
+                println!("VIOLATION property={} replay={}", tcverif::fuzz_targets::property_of(&args[2]), args[3]);
+                std::process::exit(1)
+            }
+        }
+    }
     if prop_arg == "SELFTEST" {
         match engine::crypto::self_test() {
             Ok(()) => {
@@ -83,6 +127,30 @@ fn main() {
             }
         }
         i += 1;
+    }
+    if let Some(path) = &replay {
+        let is_json = std::fs::read(path).ok().and_then(|b| serde_json::from_slice::<serde_json::Value>(&b).ok()).is_some();
+        if !is_json {
+            // a fuzz artifact: run it through the property's fuzz target
+            let target = tcverif::fuzz_targets::TARGETS
+                .iter()
+                .find(|t| tcverif::fuzz_targets::property_of(t) == prop_arg)
+                .copied();
+            if let Some(t) = target {
+                let data = std::fs::read(path).unwrap_or_default();
+                match tcverif::fuzz_targets::run(t, &data) {
+                    Ok(()) => {
+                        println!("REPLAY PASS target={t}");
+                        std::process::exit(0)
+                    }
+                    Err(f) => {
+                        println!("REPLAY FAIL target={t} signature={}\n{}", f.signature, f.msg);
+                        println!("VIOLATION property={prop_arg} replay={}", path.display());
+                        std::process::exit(1)
+                    }
+                }
+            }
+        }
     }
     let Some((id, f)) = props::lookup(&prop_arg) else {
         eprintln!("unknown property {prop_arg}");
